@@ -172,6 +172,10 @@ def run_task(task, acc):
     A, B = pools(tier, acc.seed)
     if task['part'] == 'split':
         allv = A + B
+        # quantity: every triple of ranges with three settings on top of each other (two of three ending together, the
+        # middle one reaching further ...) - the seam of v[:k] + v[k:] then has three settings to merge
+        for kind, L in (('tri', 4), ('trix', 3), ('triw', 3)) + ((('trix', 4), ('triw', 4)) if tier != 'quick' else ()):
+            allv = allv + [(hh, None) for hh in explore.family_hists(kind, explore.letters(acc.seed, L), acc.seed)]
         for idx, (h, v) in enumerate(allv):
             if idx % 8 != task['k']:
                 continue
